@@ -58,13 +58,20 @@ impl Probe for NoProbe {}
 pub struct Counter {
     pub txns: AtomicU64,
     pub calls: AtomicU64,
+    /// calls that can change stored state (new_client, set_snapshot, add_version, commit)
+    pub writes: AtomicU64,
 }
 impl Probe for Counter {
     fn before(&self, call: Call) -> Option<anyhow::Error> {
         if call == Call::Txn {
             self.txns.fetch_add(1, Ordering::SeqCst);
         }
-        self.calls.fetch_add(1, Ordering::SeqCst);
+        if matches!(call, Call::NewClient | Call::SetSnapshot | Call::AddVersion | Call::Commit) {
+            self.writes.fetch_add(1, Ordering::SeqCst);
+        }
+        if call != Call::DropTxn {
+            self.calls.fetch_add(1, Ordering::SeqCst);
+        }
         None
     }
 }
